@@ -38,6 +38,7 @@ namespace
   typedef Shape::Hypercube<2> Q; typedef Shape::Simplex<2> T; typedef Shape::Hypercube<3> H;
   const PairEntry pairs[] = {
     {&Monitors<DQ1TBNP, Q>::run, true}, {&Monitors<DQ1TBNP, H>::run, true}, {&Monitors<DCDSSY, Q>::run, true},
-    {&Monitors<DBernstein2, Q>::run, true}, {&Monitors<DBernstein2, H>::run, false}, {&Monitors<DP2Bubble, T>::run, true}};
+    {&Monitors<DBernstein2, Q>::run, true}, {&Monitors<DBernstein2, H>::run, true}, {&Monitors<DP2Bubble, T>::run, true}};
 }
+static RegO3d o1("B2:H", &Monitors<DBernstein2, H>::run_o3d);
 VH_FAMILY(misc) { run_pair(c, pairs, sizeof(pairs) / sizeof(pairs[0])); }
